@@ -149,3 +149,32 @@ def stepsExplicit (fr : Roms.Frames α) (cw : α → α) (s : FSt α) (start : I
 
 end
 end Ladim.Seq
+
+namespace Ladim.Seq
+section
+variable {α : Type} [Add α] [Sub α] [Mul α] [Div α] [HasOfInt α]
+
+/-- the loop of `Forcing.update` on the interpreted code: `_update_one_step(step)` for `step = start, start+1, …`
+(`n` of them), each one the interpretation of the generated statement sequence -/
+def codeSteps (fr : Roms.Frames α) (cw : α → α) : FSt α → Int → Nat → Option (FSt α)
+  | s, _, 0 => some s
+  | s, start, n + 1 =>
+    (run (stepAtom fr start) (stepStep fr cw start) Gen.forcing_step_seq s).bind
+      (fun s' => codeSteps fr cw s' (start + 1) n)
+
+/-- state of the `Forcing` object between calls: the fields and `_last_update` -/
+structure CodeSt (α : Type) where
+  st : FSt α
+  last : Int
+
+/-- `Forcing.update(t)` after the initialisation: `for step in range(self._last_update + 1, t + 1)` -/
+def codeUpdate (fr : Roms.Frames α) (cw : α → α) (c : CodeSt α) (t : Int) : Option (CodeSt α) :=
+  if c.last < t then (codeSteps fr cw c.st (c.last + 1) (t - c.last).toNat).map (fun s => ⟨s, t⟩) else some c
+
+/-- a whole run of the interpreted code: `_remaining_initialization`, then `update(t)` for every `t` of the schedule -/
+def codeRun (fr : Roms.Frames α) (cw : α → α) (z : α) (sched : List Int) : Option (CodeSt α) :=
+  (run (initAtom fr) (initStep fr cw) Gen.forcing_init_seq (FSt.blank z)).bind
+    (fun s0 => sched.foldlM (codeUpdate fr cw) ⟨s0, -1⟩)
+
+end
+end Ladim.Seq
